@@ -13,6 +13,12 @@ def has_flags(prog):
     return any(st.get("active") is not None for st in prog["stmts"]) or any(has_flags(s) for s in prog["subs"])
 
 
+def same_dag_twice(prog):
+    """does some describing function of the program call one nested DAG at two call sites? (known refusal F12)"""
+    ds = [st["d"] for st in prog["stmts"] if st["op"] == "sub"]
+    return len(ds) != len(set(ds)) or any(same_dag_twice(s_) for s_ in prog["subs"])
+
+
 def has_subs(prog):
     return any(st["op"] == "sub" for st in prog["stmts"])
 
@@ -522,7 +528,8 @@ def run(pid, tier, seed, res, p_sub=None, p_flag=None, only=None):
                     txt = "%s: %s" % (type(r["impl"][1]).__name__, r["impl"][1])
                     if "ReturnExecNode.__init__() got an unexpected keyword argument" in txt and has_subs(prog):
                         sig = dict(f10=True)
-                    elif "is already occupied" in txt and has_subs(prog):
+                    elif "is already occupied" in txt and has_subs(prog) and same_dag_twice(prog):
+                        # F12 proper: one and the same inner DAG object embedded twice in one outer DAG
                         sig = dict(f12=True)
                 for p in props_:
                     res.hit(p, "monitor", msg, dict(base, kind="monitor", signature=sig))
